@@ -8,47 +8,76 @@ Import ListNotations.
 Ltac Zify.zify_post_hook ::= Z.div_mod_to_equations.
 Open Scope N_scope.
 
-(* ================= no panic, no over-allocation ================= *)
+(* ================= no panic, no over-allocation: every type, every schema environment ================= *)
 Section NoPanic.
 Variable e : env.
 
-Definition NP_var (f : nat) : Prop := forall n t tag req prior bs, safe_ty n e t = true -> ok_out (dec_var f e tag req t prior bs).
-Definition NP_entries (f : nat) : Prop := forall n kt vt cnt bs, safe_ty n e kt = true -> safe_ty n e vt = true ->
-  ok_out (dec_entries f e kt vt cnt bs).
-Definition NP_fields (f : nat) : Prop := forall n fds ps bs, (forall fd, In fd fds -> safe_ty n e (fty fd) = true) ->
-  ok_out (dec_fields f e fds ps bs).
+(* the only outcome of the repaired decoder that is neither a value, an error nor the fuel artifact would be the
+   index check of a fixed array (DPanic site_array_index in dec_arr): the count check in front of the loop keeps the
+   index below the array's length *)
+Definition NP_var (f : nat) : Prop := forall t tag req prior bs, ok_out (dec_var f e tag req t prior bs).
+Definition NP_elems (f : nat) : Prop := forall x cnt bs, ok_out (dec_elems f e x cnt bs).
+Definition NP_arr (f : nat) : Prop := forall x len i cnt cur bs, (Z.of_nat i + cnt <= Z.of_nat len)%Z ->
+  ok_out (dec_arr f e x len i cnt cur bs).
+Definition NP_entries (f : nat) : Prop := forall kt vt cnt bs, ok_out (dec_entries f e kt vt cnt bs).
+Definition NP_fields (f : nat) : Prop := forall fds ps bs, ok_out (dec_fields f e fds ps bs).
 
-Lemma np_all : forall f, NP_var f /\ NP_entries f /\ NP_fields f.
+Lemma np_all : forall f, NP_var f /\ NP_elems f /\ NP_arr f /\ NP_entries f /\ NP_fields f.
 Proof.
-  induction f as [|f (HV & HE & HF)]; [repeat split; intro; intros; exact I|]. repeat split.
-  - intros n t tag req prior bs Hs. destruct n as [|n]; [discriminate|]. cbn [safe_ty] in Hs.
-    destruct t; try discriminate; try (rewrite dec_var_scalar by reflexivity; apply dec_scalar_safe).
-    + apply andb_true_iff in Hs. destruct Hs as [Ha Hb]. rewrite dec_var_map.
+  induction f as [|f (HV & HL & HA & HE & HF)]; [repeat split; intro; intros; exact I|]. repeat split.
+  - intros t tag req prior bs.
+    destruct t; try (rewrite dec_var_scalar by reflexivity; apply dec_scalar_safe).
+    + rewrite dec_var_vec. destruct (skip_to_no_check f tag req bs); try exact I.
+      destruct (ty =? tLIST).
+      { destruct (read_count rest); try exact I. destruct (z <? 0)%Z; [exact I|]. destruct (_ <? z)%Z; [exact I|].
+        pose proof (HL t z rest0) as H. destruct (dec_elems f e t z rest0); try exact I; exact H. }
+      destruct (ty =? tSIMPLE); [|exact I]. destruct (is_byte t); [|exact I].
+      destruct (skip_to f tBYTE 0 true rest); try exact I. destruct (read_count rest0); try exact I.
+      destruct (read_slice z rest1) as [[? ?]|]; exact I.
+    + rewrite dec_var_map.
       destruct (skip_to f tMAP tag req bs); try exact I. destruct (read_count rest); try exact I.
-      pose proof (HE n t1 t2 z rest0 Ha Hb) as H. destruct (dec_entries f e t1 t2 z rest0); try exact I; exact H.
+      destruct ((z <? 0)%Z || (_ <? z)%Z); [exact I|].
+      pose proof (HE t1 t2 z rest0) as H. destruct (dec_entries f e t1 t2 z rest0); try exact I; exact H.
+    + rewrite dec_var_arr. destruct (skip_to_no_check f tag req bs); try exact I.
+      destruct (ty =? tLIST); [|exact I]. destruct (read_count rest); try exact I.
+      destruct ((z <? 0)%Z || (Z.of_nat n <? z)%Z) eqn:Eg; [exact I|].
+      pose proof (HA t n 0%nat z (match prior with VList l => l | _ => [] end) rest0 ltac:(lia)) as H.
+      destruct (dec_arr f e t n 0 z _ rest0); try exact I; exact H.
     + rewrite dec_var_struct. cbv zeta. destruct (skip_to f tSB tag req bs); try exact I.
-      rewrite forallb_forall in Hs.
-      pose proof (HF n (fields_of e sid) (match reset_default f e sid (reset_default f e sid prior) with VStruct l => l | _ => [] end) rest Hs) as H.
+      pose proof (HF (fields_of e sid) (match reset_default f e sid (reset_default f e sid prior) with VStruct l => l | _ => [] end) rest) as H.
       destruct (dec_fields f e (fields_of e sid) _ rest); try exact I; try exact H.
       destruct (skip_to_end f 0 rest0) as [[| |] ?]; exact I.
-  - intros n kt vt cnt bs Ha Hb. rewrite dec_entries_S. destruct (cnt <=? 0)%Z; [exact I|].
-    pose proof (HV n kt 0 true (zero_of f e kt) bs Ha) as H1. destruct (dec_var f e 0 true kt (zero_of f e kt) bs); try exact I; try exact H1.
-    pose proof (HV n vt 1 true (zero_of f e vt) rest Hb) as H2. destruct (dec_var f e 1 true vt (zero_of f e vt) rest); try exact I; try exact H2.
-    pose proof (HE n kt vt (cnt - 1)%Z rest0 Ha Hb) as H3. destruct (dec_entries f e kt vt (cnt - 1)%Z rest0); try exact I; exact H3.
-  - intros n fds ps bs Hs. rewrite dec_fields_S. destruct fds as [|fd fds]; [exact I|]. cbv zeta.
-    pose proof (HV n (fty fd) (ftag fd) (freq fd) (match ps with p :: _ => p | [] => zero_of f e (fty fd) end) bs (Hs fd (or_introl eq_refl))) as H1.
+  - intros x cnt bs. rewrite dec_elems_S. destruct (cnt <=? 0)%Z; [exact I|].
+    pose proof (HV x 0 true (zero_of f e x) bs) as H1. destruct (dec_var f e 0 true x (zero_of f e x) bs); try exact I; try exact H1.
+    pose proof (HL x (cnt - 1)%Z rest) as H2. destruct (dec_elems f e x (cnt - 1)%Z rest); try exact I; exact H2.
+  - intros x len i cnt cur bs Hi. rewrite dec_arr_S. destruct (cnt <=? 0)%Z eqn:Ec; [exact I|].
+    destruct (len <=? i)%nat eqn:Ei; [apply Nat.leb_le in Ei; lia|].
+    pose proof (HV x 0 true (nth i cur (zero_of f e x)) bs) as H1. destruct (dec_var f e 0 true x _ bs); try exact I; try exact H1.
+    apply HA. lia.
+  - intros kt vt cnt bs. rewrite dec_entries_S. destruct (cnt <=? 0)%Z; [exact I|].
+    pose proof (HV kt 0 true (zero_of f e kt) bs) as H1. destruct (dec_var f e 0 true kt (zero_of f e kt) bs); try exact I; try exact H1.
+    pose proof (HV vt 1 true (zero_of f e vt) rest) as H2. destruct (dec_var f e 1 true vt (zero_of f e vt) rest); try exact I; try exact H2.
+    pose proof (HE kt vt (cnt - 1)%Z rest0) as H3. destruct (dec_entries f e kt vt (cnt - 1)%Z rest0); try exact I; exact H3.
+  - intros fds ps bs. rewrite dec_fields_S. destruct fds as [|fd fds]; [exact I|]. cbv zeta.
+    pose proof (HV (fty fd) (ftag fd) (freq fd) (match ps with p :: _ => p | [] => zero_of f e (fty fd) end) bs) as H1.
     destruct (dec_var f e (ftag fd) (freq fd) (fty fd) _ bs); try exact I; try exact H1.
-    pose proof (HF n fds (tl ps) rest (fun fd' Hin => Hs fd' (or_intror Hin))) as H2.
+    pose proof (HF fds (tl ps) rest) as H2.
     destruct (dec_fields f e fds (tl ps) rest); try exact I; exact H2.
 Qed.
 
-Theorem decode_no_panic n sid prior bs : safe_ty n e (TStruct sid) = true -> ok_out (decode_into e sid prior bs).
+(* any environment, any struct type (vectors, arrays, maps, recursive types included), any target, any bytes *)
+Theorem decode_no_panic sid prior bs : ok_out (decode_into e sid prior bs).
 Proof.
-  intros Hs. destruct n as [|n]; [discriminate|]. cbn [safe_ty] in Hs. rewrite forallb_forall in Hs.
-  unfold decode_into. destruct (np_all (4 * length bs + 64)) as (_ & _ & HF).
-  pose proof (HF n (fields_of e sid) (match reset_default (4 * length bs + 64) e sid prior with VStruct l => l | _ => [] end) bs Hs) as H.
+  unfold decode_into. destruct (np_all (4 * length bs + 64)) as (_ & _ & _ & _ & HF).
+  pose proof (HF (fields_of e sid) (match reset_default (4 * length bs + 64) e sid prior with VStruct l => l | _ => [] end) bs) as H.
   destruct (dec_fields _ e (fields_of e sid) _ bs); try exact I; exact H.
 Qed.
+Theorem decode_no_panic_cases sid prior bs :
+  match decode_into e sid prior bs with DOk _ _ | DErr | DFuel => True | _ => False end.
+Proof. pose proof (decode_no_panic sid prior bs) as H. destruct (decode_into e sid prior bs); exact H || exact I. Qed.
+(* the same at member level and for any fuel *)
+Theorem dec_var_no_panic f t tag req prior bs : ok_out (dec_var f e tag req t prior bs).
+Proof. destruct (np_all f) as (HV & _). apply HV. Qed.
 End NoPanic.
 Print Assumptions decode_no_panic.
 
@@ -225,7 +254,7 @@ Proof.
 Qed.
 Lemma read_slice_len n r o r' : read_slice n r = Some (o, r') -> (length r' <= length r)%nat.
 Proof.
-  unfold read_slice. destruct (n <=? 0)%Z; [intros H; inversion H; lia|].
+  unfold read_slice. destruct (n <? 0)%Z; [discriminate|].
   destruct (_ <? _)%Z; [discriminate|]. intros H; inversion H. rewrite skipn_length. lia.
 Qed.
 
@@ -266,12 +295,13 @@ Proof.
         pose proof (skip_to_fuel f tBYTE 0 true r ltac:(lia)) as Hs2.
         destruct (skip_to f tBYTE 0 true r) as [wt1 r1|r1| |]; cbn [seek_good good] in *; try tauto.
         pose proof (read_count_len_ok r1) as Hc. destruct (read_count r1) as [c r2|]; [|exact I].
-        destruct (read_slice c r2) as [[[s|] r3]|] eqn:Er; [| |exact I]; apply read_slice_len in Er; cbn [good]; split; try lia; intros; lia.
+        destruct (read_slice c r2) as [[s r3]|] eqn:Er; [|exact I]; apply read_slice_len in Er; cbn [good]; split; try lia; intros; lia.
       * destruct Hs as [Hl ->]. split; [lia|discriminate].
     + (* map *) cbn [tfin tneed] in Hfin, Hf. apply andb_true_iff in Hfin. destruct Hfin as [Ha Hb]. rewrite dec_var_map.
       pose proof (skip_to_fuel f tMAP tag req bs ltac:(lia)) as Hs.
       destruct (skip_to f tMAP tag req bs) as [wt r|r| |]; cbn [seek_good good] in *; try tauto.
       * pose proof (read_count_len_ok r) as Hc. destruct (read_count r) as [c r1|]; [|exact I].
+        destruct ((c <? 0)%Z || (_ <? c)%Z); [exact I|].
         pose proof (HM n t1 t2 c r1 Ha Hb ltac:(lia)) as H. destruct (dec_entries f e t1 t2 c r1); cbn [good] in *; try tauto.
         split; [lia|intros; lia].
       * destruct Hs as [Hl ->]. split; [lia|discriminate].
@@ -280,6 +310,7 @@ Proof.
       destruct (skip_to_no_check f tag req bs) as [wt r|r| |]; cbn [seek_good good] in *; try tauto.
       * destruct (wt =? tLIST); [|exact I].
         pose proof (read_count_len_ok r) as Hc. destruct (read_count r) as [c r1|]; [|exact I].
+        destruct ((c <? 0)%Z || (_ <? c)%Z); [exact I|].
         pose proof (HA n t n0 0%nat c (match prior with VList l => l | _ => [] end) r1 Hfin ltac:(lia)) as H.
         destruct (dec_arr f e t n0 0 c _ r1); cbn [good] in *; try tauto. split; [lia|intros; lia].
       * destruct Hs as [Hl ->]. split; [lia|discriminate].
@@ -339,19 +370,14 @@ Proof.
 Qed.
 End Fuel.
 
-Lemma safe_tfin e : forall n t, safe_ty n e t = true -> tfin n e t = true.
-Proof.
-  induction n as [|n IH]; intros t H; [discriminate|]. destruct t; cbn [safe_ty tfin] in *; try reflexivity; try discriminate.
-  - apply andb_true_iff in H. destruct H. apply andb_true_iff. split; now apply IH.
-  - rewrite forallb_forall in *. intros fd Hin. apply IH. now apply H.
-Qed.
-
-(* C05 for struct types without vector/array members: any bytes, any target: a value or an error *)
-Theorem decode_total e n sid prior bs : safe_ty n e (TStruct sid) = true -> (tneed n e (TStruct sid) <= 64)%nat ->
+(* C05: every struct type with a finite type graph (vectors, arrays and maps included), any target, ANY bytes:
+   a value or an error - no panic, no count beyond the bytes left reaching an allocation, and the model's fuel
+   suffices *)
+Theorem decode_total e n sid prior bs : tfin n e (TStruct sid) = true -> (tneed n e (TStruct sid) <= 64)%nat ->
   total_out (decode_into e sid prior bs).
 Proof.
-  intros Hs Hn. pose proof (decode_no_panic e n sid prior bs Hs) as H1.
-  pose proof (decode_fuel e n sid prior bs (safe_tfin e n _ Hs) Hn) as H2.
+  intros Hs Hn. pose proof (decode_no_panic e sid prior bs) as H1.
+  pose proof (decode_fuel e n sid prior bs Hs Hn) as H2.
   destruct (decode_into e sid prior bs); cbn [ok_out total_out] in *; try tauto; congruence.
 Qed.
 Print Assumptions decode_fuel.
